@@ -360,6 +360,8 @@ func checkC12(w *World, r *Report) {
 	checkParserDoesNotEvaluate(w, r)
 	checkImportsRenderLibrary(w, r, "R12.7")
 	checkMacroKeepsDeclaration(w, r)
+	checkMacroTableWriters(w, r)
+	checkQualifiedCallsKeepQualifier(w, r)
 	checkChainWalkBounds(w, r, "R12.8")
 }
 
@@ -1104,4 +1106,103 @@ func checkMacroKeepsDeclaration(w *World, r *Report) {
 		})
 	}
 	r.floor("stores into a macro node's declaration fields", n, 3)
+}
+
+// checkMacroTableWriters — R12.10: a macro exists from the point where its definition (or the
+// import that brings it in) is rendered.  The macro table of a render context is written only by
+// the context's own methods and by the macro / import / from-import nodes: another writer — a
+// root node registering every macro of the template up front — makes a name mean the macro before
+// its definition was reached, and since a name is looked up among the macros first, a variable of
+// that name set earlier in the template is hidden.
+func checkMacroTableWriters(w *World, r *Report) {
+	allowed := map[string]bool{"RenderContext": true, "MacroNode": true, "ImportNode": true, "FromImportNode": true}
+	n := 0
+	for _, fn := range w.pkgFuncs() {
+		instrsOf(fn, func(in ssa.Instruction) {
+			mu, ok := in.(*ssa.MapUpdate)
+			if !ok {
+				return
+			}
+			if _, ok := fieldLoad(mu.Map, "RenderContext", "macros"); !ok {
+				return
+			}
+			n++
+			recv := ""
+			root := fn
+			for root.Parent() != nil {
+				root = root.Parent()
+			}
+			if root.Signature.Recv() != nil {
+				if nt, ok := deref(root.Signature.Recv().Type()).(*types.Named); ok {
+					recv = nt.Obj().Name()
+				}
+			}
+			construct := "write to the context's macro table"
+			if allowed[recv] {
+				r.ok("R12.10", ssaName(fn), construct, w.posOf(in.Pos()), "by the context itself or by a macro/import node", false)
+			} else {
+				r.bad("R12.10", ssaName(fn), construct, w.posOf(in.Pos()), "the macro table is filled by code that is neither the context nor the node that defines or imports the macro: macros become visible before their definition is rendered, and a name that the template uses as a variable until then resolves to the macro instead")
+			}
+		})
+	}
+	r.floor("writes to a context's macro table", n, 3)
+}
+
+// checkQualifiedCallsKeepQualifier — R12.11: `m.f(…)` is f of m.  Wherever a function call node's
+// name is used to look a macro (or function) up by that bare name, the lookup is reachable only
+// where the node's module expression has been tested (nil: an unqualified call): a shortcut that
+// dispatches on the name alone calls whatever macro of that name is in scope instead of the
+// library's.
+func checkQualifiedCallsKeepQualifier(w *World, r *Report) {
+	getMacro := w.method("RenderContext", "GetMacro")
+	n := 0
+	for _, fn := range w.pkgFuncs() {
+		instrsOf(fn, func(in ssa.Instruction) {
+			c, ok := in.(*ssa.Call)
+			if !ok || calleeFunc(c) != getMacro {
+				return
+			}
+			args := callArgs(c)
+			if len(args) == 0 {
+				return
+			}
+			nameLoad, ok := unspill(args[0]).(*ssa.UnOp)
+			if !ok {
+				return
+			}
+			base, ok := fieldLoad(nameLoad, "FunctionNode", "name")
+			if !ok {
+				return
+			}
+			n++
+			// a nil test of base.moduleExpr on every path to the call
+			fl := &boolFlow{fn: fn, entry: false}
+			fl.edge = func(b *ssa.BasicBlock, i int) bool {
+				return anyEdgeFact(b, i, func(v ssa.Value, trueIdx int) bool {
+					bo, ok := v.(*ssa.BinOp)
+					if !ok || (bo.Op != token.EQL && bo.Op != token.NEQ) {
+						return false
+					}
+					for _, pr := range [][2]ssa.Value{{bo.X, bo.Y}, {bo.Y, bo.X}} {
+						if !isNilConst(pr[1]) {
+							continue
+						}
+						if mb, ok := fieldLoad(unspill(pr[0]), "FunctionNode", "moduleExpr"); ok && sameValue(unspill(mb), unspill(base)) {
+							isNil := (bo.Op == token.EQL) == (i == trueIdx)
+							return isNil
+						}
+					}
+					return false
+				})
+			}
+			fl.solve()
+			construct := "macro looked up by a call node's bare name"
+			if fl.at(in) {
+				r.ok("R12.11", ssaName(fn), construct, w.posOf(in.Pos()), "only where the node's module expression is nil", true)
+			} else {
+				r.bad("R12.11", ssaName(fn), construct, w.posOf(in.Pos()), "the call node's name is looked up among the macros in scope without the node's module expression having been found nil: `lib.f(…)` is answered by a macro f that happens to be defined or imported in the calling template, not by the library's f")
+			}
+		})
+	}
+	r.Counts["macro lookups by a call node's name"] = n
 }
